@@ -121,8 +121,11 @@ func genC12(r *Rng, tier string, idx int) *Program {
 			p.Holds = append(p.Holds, Hold{Task: r.Range(1, nt), Site: PickOf(r, sites), Nth: r.Range(1, 6), Len: r.Range(20, 150)})
 		}
 	}
-	if r.Chance(0.2) {
+	switch r.Pick([]int{60, 20, 20}) {
+	case 1:
 		genC12ColdCache(r, p)
+	case 2:
+		genC12ColdPos(r, p)
 	}
 	for i := 0; i < 400 || i < int(p.Params["max_steps"]); i++ {
 		p.Schedule = append(p.Schedule, r.Intn(1000))
@@ -167,6 +170,44 @@ func genC12ColdCache(r *Rng, p *Program) {
 	p.Holds = []Hold{{Task: 2, Site: "client:list:done:L1", Nth: r.Range(1, 5), Len: r.Range(30, 150)}}
 	if r.Chance(0.5) {
 		p.Holds = append(p.Holds, Hold{Task: r.Range(1, 2), Site: "client:", Nth: r.Range(1, 20), Len: r.Range(30, 150)})
+	}
+}
+
+// genC12ColdPos: level-0 retention keeps emptying the cached position while
+// status queries and uploads (which read the position back from disk) run
+// beside syncs that publish new positions; one reader is held after its read.
+func genC12ColdPos(r *Rng, p *Program) {
+	p.Variant = "cold-pos"
+	p.Cfg.LevelMs = []int64{2000}
+	p.Cfg.L0RetentionMs = []int64{0, 1, 1000}[r.Intn(3)]
+	p.Params["tasks"] = 3
+	p.Params["aux_dbs"] = 0
+	p.Params["sticky"] = 850
+	p.Params["max_steps"] = 2500
+	p.Ops = nil
+	for i := 0; i < r.Range(25, 40); i++ {
+		st := genTxn(r, &p.Cfg)
+		st.Rollback = false
+		p.Ops = append(p.Ops, Op{Kind: "app", Step: &st, Level: 0})
+	}
+	add := func(tk int, ops ...Op) {
+		for _, op := range ops {
+			op.Level = tk
+			p.Ops = append(p.Ops, op)
+		}
+	}
+	for i := 0; i < r.Range(6, 10); i++ { // level-1 monitor: compaction ends with level-0 retention; then a status query
+		add(1, Op{Kind: "ls_sync_wait"}, Op{Kind: PickOf(r, []string{"ls_compact", "ls_compact", "ls_l0_retention"}), N: 1}, Op{Kind: "status"})
+	}
+	for i := 0; i < r.Range(8, 14); i++ {
+		add(2, Op{Kind: PickOf(r, []string{"ls_sync", "ls_replica_sync", "status"})})
+	}
+	for i := 0; i < r.Range(6, 12); i++ {
+		add(3, Op{Kind: PickOf(r, []string{"ls_sync", "ls_replica_sync", "ls_sync_wait"})})
+	}
+	p.Holds = []Hold{{Task: -1, Site: "pos:", Nth: r.Range(1, 3), Len: r.Range(30, 150)}}
+	if r.Chance(0.5) {
+		p.Holds = append(p.Holds, Hold{Task: -1, Site: "pos:", Nth: r.Range(2, 6), Len: r.Range(30, 150)})
 	}
 }
 
